@@ -24,7 +24,7 @@ NMAX = 4 if os.environ.get("VERIF_TIER", "quick") == "thorough" else 3
 NINIT = 24 if os.environ.get("VERIF_TIER", "quick") == "thorough" else 12  # enumeration orders of a fresh server's workspace_init
 SRV = ws.make_server()
 SHAPES = ["use", "extends", "submodule", "pointer", "associate", "procptr", "binding", "include", "extends_files",
-          "mixed", "include_multi", "dummy_iface", "include_in_proc"]
+          "mixed", "include_multi", "dummy_iface", "include_in_proc", "use_ptr_cross", "include_nested"]
 WORD = re.compile(r"[A-Za-z_]\w*")
 
 
@@ -117,6 +117,20 @@ def render(shape: str, n: int, succ):
         for i in range(n):
             files[f"{R}/i{i}.f90"] = f"integer :: k{i}\nsubroutine sa{i}()\ninclude 'i{succ[i]}.f90'\nk{i} = 1\nend subroutine sa{i}\n"
         files[f"{R}/main.f90"] = "program p\ninclude 'i0.f90'\nend program p\n"
+        return files
+    if shape == "use_ptr_cross":  # modules that USE each other AND hold pointers linked along the same successor map
+        files = {}
+        for i in range(n):
+            body = [f"module m{i}", f"use m{succ[i]}", f"integer, pointer :: p{i} => p{succ[i]}", f"procedure(s{succ[i]}), pointer :: q{i} => q{succ[i]}",
+                    "contains", f"subroutine s{i}()", f"p{i} = p{succ[i]}", f"call q{succ[i]}()", f"end subroutine s{i}", f"end module m{i}"]
+            files[f"{R}/m{i}.f90"] = "\n".join(body) + "\n"
+        return files
+    if shape == "include_nested":  # each file includes its successor twice, two BLOCKs deep (shared content below two scopes)
+        files = {}
+        for i in range(n):
+            inc = f"block\n  block\n    include 'i{succ[i]}.f90'\n  end block\nend block\n"
+            files[f"{R}/i{i}.f90"] = f"integer :: k{i}\n" + inc + inc
+        files[f"{R}/main.f90"] = "program p\n  include 'i0.f90'\n  k0 = k0 + 1\nend program p\n"
         return files
     raise AssertionError(shape)
 
